@@ -80,7 +80,16 @@ func verifC02Dump(t route.Table) [][3]interface{} {
 		for _, r := range t[h] {
 			svcs := []string{}
 			for _, tg := range r.Targets {
-				svcs = append(svcs, tg.Service)
+				// service, NUL, the target's options as "k=v k=v" with the keys ascending
+				ks := make([]string, 0, len(tg.Opts))
+				for k := range tg.Opts {
+					ks = append(ks, k)
+				}
+				sort.Strings(ks)
+				for i, k := range ks {
+					ks[i] = k + "=" + tg.Opts[k]
+				}
+				svcs = append(svcs, tg.Service+"\x00"+strings.Join(ks, " "))
 			}
 			out = append(out, [3]interface{}{h, r.Path, svcs})
 		}
